@@ -376,6 +376,24 @@ var ruleA4 = &Rule{
 					}
 				}
 			}
+			if portion == nil {
+				// the send-and-resolve stage may receive the block and the waiting list from the one routine that swapped them
+				// out: its parameters are then judged as the arguments of that call
+				if sites := callSitesOf(c, fn); len(sites) == 1 {
+					if call, ok := sites[0].(*ssa.Call); ok && strings.HasPrefix(fnPkgRel(call.Parent()), "writer/service") {
+						bindCallParams(call, fn)
+						for _, b := range call.Parent().Blocks {
+							for _, ins := range b.Instrs {
+								if sw, ok := ins.(*ssa.Call); ok {
+									if sc := sw.Common().StaticCallee(); sc != nil && sc.Name() == "swapBuffers" {
+										portion = sw
+									}
+								}
+							}
+						}
+					}
+				}
+			}
 			add("portion comes from swapBuffers", portion != nil, fn.Pos(), "the flush routine does not obtain its portion from swapBuffers")
 			fieldOfPortion := func(fname string) func(ssa.Value) bool { // kept for messages
 				return func(v ssa.Value) bool {
